@@ -165,6 +165,11 @@ func (e *Engine) intrinsic(fr *Frame, st *State, ins ssa.Instruction, fn *ssa.Fu
 				}
 			}
 			unsupported("dynTypeIs: unknown type")
+		case "notPartOf":
+			// the backing array of b is not (part of) the object x points to
+			b := args[0].(*Term)
+			x := args[1].(*Term)
+			return tb.Not(tb.Eq(tb.RootID(e.sBase(b)), tb.RootID(tb.Acc(x, 1)))), true
 		case "refOf":
 			return tb.Acc(args[0].(*Term), 1), true
 		}
